@@ -56,7 +56,12 @@ def _date(draw):
         return None
     if kind == 'bad':
         return dict(s=draw(st.sampled_from(BAD_DATE)), d=None, kind='bad')
-    y, mo, d = draw(st.integers(1970, 2059)), draw(st.integers(1, 12)), draw(st.integers(1, 28))
+    # any calendar day, month ends and leap days included
+    lo, hi = datetime.date(1970, 1, 1).toordinal(), datetime.date(2059, 12, 31).toordinal()
+    day = draw(st.one_of(st.integers(lo, hi).map(datetime.date.fromordinal),
+                         st.sampled_from([datetime.date(2016, 2, 29), datetime.date(2000, 2, 29), datetime.date(1996, 2, 29),
+                                          datetime.date(2032, 2, 29), datetime.date(2021, 1, 31), datetime.date(1999, 12, 31)])))
+    y, mo, d = day.year, day.month, day.day
     mn = draw(st.sampled_from([MON[mo - 1], MON[mo - 1].upper(), MON[mo - 1].lower()]))
     if kind == 'd-b-Y':
         return dict(s='%02d-%s-%04d' % (d, mn, y), d=[y, mo, d], kind=kind)
@@ -65,7 +70,9 @@ def _date(draw):
     if kind == 'd-b-y':
         yy = y % 100
         return dict(s='%02d-%s-%02d' % (d, mn, yy), d=[2000 + yy if yy <= 68 else 1900 + yy, mo, d], kind=kind)
-    yy = draw(st.integers(32, 99))
+    yy = y % 100
+    if yy < 32 or (mo == 2 and d == 29 and (2000 + yy if yy <= 68 else 1900 + yy) % 4):
+        yy = 96 if (mo == 2 and d == 29) else draw(st.integers(32, 99))      # yy > 31 (see ASSUMPTIONS); keep leap days valid
     return dict(s='%02d-%s-%02d' % (yy, mn, d), d=[2000 + yy if yy <= 68 else 1900 + yy, mo, d], kind=kind)
 
 
